@@ -736,9 +736,22 @@ func init() {
 	intrinsics["math/rand.Intn"] = func(e *Exec, a []Value) Value {
 		e.envEvent("math/rand.Intn")
 		n := a[0].(*Term)
+		if e.envFixed {
+			return Const(64, 0) // verifEnvFixed(true): one legal draw instead of all of them
+		}
 		v := e.freshEnvVar(64)
 		e.assume(Bin(OUlt, v, n))
 		return v
+	}
+	// rand.Shuffle: ONE outcome of the Fisher-Yates shuffle (j = 0 at every step, a legal draw); the
+	// environment is concretised here, what the swaps write is seen by the write monitor as usual
+	intrinsics["math/rand.Shuffle"] = func(e *Exec, a []Value) Value {
+		e.envEvent("math/rand.Shuffle")
+		n := e.concretize(a[0].(*Term), 4096)
+		for i := int64(n) - 1; i > 0; i-- {
+			e.call(a[1], []Value{Const(64, uint64(i)), Const(64, 0)}, 0)
+		}
+		return nil
 	}
 	intrinsics["math/rand.Int"] = func(e *Exec, a []Value) Value {
 		e.envEvent("math/rand.Int")
